@@ -2,6 +2,7 @@ package serixgen
 
 import (
 	"reflect"
+	"time"
 	"unicode/utf8"
 )
 
@@ -85,6 +86,54 @@ func HasInvalidUTF8(n *Node, v reflect.Value) bool {
 			for _, im := range n.Impls {
 				if im.T == dyn.Type() {
 					return HasInvalidUTF8(im, dyn)
+				}
+			}
+		}
+	}
+
+	return false
+}
+
+// HasSaturatedTime reports whether any time stamp inside v sits at the saturation value MaxInt64 ns (or at 0 via a
+// negative time): such a value may stem from a wire stamp beyond the int64 range, which the format maps non-injectively.
+func HasSaturatedTime(n *Node, v reflect.Value) bool {
+	switch n.Kind {
+	case KTime:
+		tm, _ := v.Interface().(time.Time)
+		return TimeNanos(tm) == MaxNanos
+	case KSlice, KArray:
+		for i := 0; i < v.Len(); i++ {
+			if HasSaturatedTime(n.Elem, v.Index(i)) {
+				return true
+			}
+		}
+	case KMap:
+		it := v.MapRange()
+		for it.Next() {
+			if HasSaturatedTime(n.Key, it.Key()) || HasSaturatedTime(n.Elem, it.Value()) {
+				return true
+			}
+		}
+	case KStruct:
+		for _, f := range n.Fields {
+			fv := v.Field(f.Index)
+			if (f.N.Kind == KPtr || f.N.Kind == KIface) && fv.IsNil() {
+				continue
+			}
+			if HasSaturatedTime(f.N, fv) {
+				return true
+			}
+		}
+	case KPtr:
+		if !v.IsNil() {
+			return HasSaturatedTime(n.Elem, v.Elem())
+		}
+	case KIface:
+		if !v.IsNil() {
+			dyn := v.Elem()
+			for _, im := range n.Impls {
+				if im.T == dyn.Type() {
+					return HasSaturatedTime(im, dyn)
 				}
 			}
 		}
